@@ -11,7 +11,7 @@ RULE = ("requirement strings per system (Default, NPM, Cargo, Go, NuGet), gramma
         "prerelease bounds, every operator (so that ∞ components, the minimum 0.0.0-0, Go's v prefix and NuGet lower-casing "
         "occur in the printed sets), 5% mutated; ~20 probe versions per requirement (every version literal of the text byte for byte as written, "
         "bounds, neighbours in each component, prerelease neighbours, random); 8% of the Default/NPM/Cargo requirements are "
-        "a second pass adds every bound of the spans Go holds for the set and for the re-parsed set (∞ as 2^63-2 and 2^63-1) with neighbours; NuGet labels appear in upper and mixed case and probes with four numbers; "
+        "a second pass adds every bound of the spans Go holds for the set and for the re-parsed set (∞ as 2^63-2 and 2^63-1) with neighbours; prerelease labels appear in upper and mixed case for every system (probed as written, in the other case forms and with a label ordered between the two), NuGet probes with four numbers; "
         "the share of sets inside the computable hypothesis of C11_reparse_checked is counted and a failed round trip inside it is a divergence; "
         "and-lists that collapse to a single version (>a <=inc(a), >=a <=a, >a inc(a), either order). Go prints Set.String, parses it with ParseSetConstraint, prints again, and reports "
         "MatchVersionPrerelease of every probe before and after; the extracted model does the same from the same parse tables. "
@@ -111,6 +111,11 @@ def add_span_probes(ctx, cases):
         if line.startswith('("ok"'):
             r = parse_sx(line)
             spans = [cdump.Span(s) for s in r[4][1]]
+            live = [x for x in spans if x.rank != 0 and x.min is not None and x.max is not None]
+            if len(live) > 2:
+                ctx.count("set:three or more spans")
+            if any(cdump.cmp_v(y.min, x.max) <= 0 for x, y in zip(live, live[1:]) if x.min.sys in (0, 1, 2, 4, 5)):
+                ctx.count("set:neighbouring spans overlap or touch (not a fixed point of canon)")
             if r[2][0] == b"ok":
                 spans += [cdump.Span(s) for s in r[2][3][1]]
             extra = reqtext.span_probes(ctx.rng, c["sys"], spans, have=c["probes"])
